@@ -2212,27 +2212,37 @@ func (t *typing) unwindsBeforeJump(name string) bool {
 		return false
 	}
 	seenUnwind, ok := false, false
-	ast.Inspect(fi.Decl.Body, func(n ast.Node) bool {
-		ce, isCall := n.(*ast.CallExpr)
-		if !isCall {
-			return true
-		}
-		se, isSel := ce.Fun.(*ast.SelectorExpr)
-		if !isSel {
-			return true
-		}
-		switch se.Sel.Name {
-		case "unwindToLoop":
-			seenUnwind = true
-		case "AddOp":
-			if len(ce.Args) == 1 {
-				if id, isID := ce.Args[0].(*ast.Ident); isID && id.Name == "typeJmp" && seenUnwind {
-					ok = true
+	// calls in source order, looking through ParserData helpers that are not themselves the primitives looked for
+	// (an `emitLoopJmp` extracted from BreakPush and ContinuePush is followed into)
+	var scan func(body ast.Node, depth int)
+	scan = func(body ast.Node, depth int) {
+		ast.Inspect(body, func(n ast.Node) bool {
+			ce, isCall := n.(*ast.CallExpr)
+			if !isCall {
+				return true
+			}
+			se, isSel := ce.Fun.(*ast.SelectorExpr)
+			if !isSel {
+				return true
+			}
+			switch se.Sel.Name {
+			case "unwindToLoop":
+				seenUnwind = true
+			case "AddOp":
+				if len(ce.Args) == 1 {
+					if id, isID := ce.Args[0].(*ast.Ident); isID && id.Name == "typeJmp" && seenUnwind {
+						ok = true
+					}
+				}
+			default:
+				if h := t.e.P.Funcs["(*ParserData)."+se.Sel.Name]; h != nil && h.Decl != nil && h.Decl.Body != nil && depth < 3 {
+					scan(h.Decl.Body, depth+1)
 				}
 			}
-		}
-		return true
-	})
+			return true
+		})
+	}
+	scan(fi.Decl.Body, 0)
 	if ok {
 		t.e.Assumptions["grammar typing: unwindToLoop closes exactly the blocks and templates opened since LoopBegin (its Engine A contract) and blockDepth/fstrDepth count the open block instructions of the current buffer (AddOp is the only emitter of block instructions besides unwindToLoop)"] = true
 	}
